@@ -731,8 +731,14 @@ libChkHeader(Lib lib)
 			libError(lib, ALDOR_E_LibBadSectName);
 			return false;
 		}
-		if( libNameIndex(lib, n) != i )
-			bug( "Index[Name[i]] != i" );
+		/* Two entries carrying the same name: in memory this would be
+		 * a bug (libPutHeader reports it as such), in a file just read
+		 * it is damage.
+		 */
+		if( libNameIndex(lib, n) != i ) {
+			libError(lib, ALDOR_E_LibSectDup);
+			return false;
+		}
 	}
 
 #if 0
@@ -820,8 +826,11 @@ libGetHeader(Lib lib)
 		libIndexSect(lib,i).length = bufGetSInt(buf);
 	}
 
-	/* Set up the section indices. */
-	for( i = LIB_INDEX_START; i < LIB_INDEX_LIMIT; i += 1 ) {
+	/* Set up the section indices (entries in use only: a stray name in
+	 * an unused entry must not hide a real section).
+	 */
+	for( i = LIB_INDEX_START;
+	     i < LIB_INDEX_LIMIT && i < lib->hdr.numSect; i += 1 ) {
 		LibSectName n = libIndexName(lib, i);
 
 		if( n < LIB_NAME_LIMIT )
